@@ -190,3 +190,45 @@ for cls, req in (('Nasa', ORDERED + ['T > 0', 'T != self.T_mid']), ('Shomate', [
                  ('G=H-TS', 'self.get_GoRT(T=T, x=x) == self.get_HoRT(T=T, x=x) - self.get_SoR(T=T, x=x)'),
                  ('coverage-energy-is-the-same-at-every-temperature',
                   'T * (self.get_HoRT(T=T, x=x) - self.get_HoRT(T=T, x=0.)) == 2 * T * (self.get_HoRT(T=2 * T, x=x) - self.get_HoRT(T=2 * T, x=0.))')])
+
+# ---- larger shapes (declared bounded: the same clauses, run natively on samples; never counted as proved) -----------------------
+LADDER = [4, 5, 8, 13, 40, 300]
+
+
+def nasa9c(k):
+    # contiguous intervals with fixed bounds (every temperature of the range lies in an interval), listed in a scrambled order
+    bounds = [(100. + 900. * i, 100. + 900. * (i + 1)) for i in range(k)]
+    order = [(2 * i + 1) % k if k % 2 else (i * (k - 1) + 1) % k for i in range(k)] if k > 2 else list(range(k))
+    if sorted(order) != list(range(k)):
+        order = list(range(k))[::-1]
+    return New(NASA + 'Nasa9', name=Const('sp'),
+               nasas=ListOf([New(NASA + 'SingleNasa9', T_low=Const(bounds[j][0]), T_high=Const(bounds[j][1]), a=RealVec(9, -50., 50.))
+                             for j in order]))
+
+
+for q in ('CpoR', 'HoRT', 'SoR', 'GoRT'):
+    contract(NASA + 'Nasa.get_' + q, P, label='array-is-map,large', shapes=dict(n=LADDER), native_only=True,
+             args=lambda n: dict(self=nasa7(), T=RealVec(n, 50., 6000.)),
+             requires=ORDERED + ['all(T[i] > 0 for i in range(len(T)))'],
+             ensures=[('one-entry-per-temperature', 'len(result) == len(T)'),
+                      ('each-entry-is-the-scalar-value', 'all(at(result, i) == self.get_%s(T=T[i]) for i in range(len(T)))' % q)])
+    contract(NASA + 'Nasa9.get_' + q, P, label='array-is-map,large', shapes=dict(k=[3, 4, 6], n=[1, 4, 13, 300]), native_only=True,
+             args=lambda k, n: dict(self=nasa9c(k), T=RealVec(n, 100., 100. + 900. * k)),
+             requires=['all(T[i] > 0 for i in range(len(T)))',
+                       'all(any(s.T_low <= T[i] and T[i] <= s.T_high for s in self.nasas) for i in range(len(T)))'],
+             ensures=[('each-entry-is-its-own-segment',
+                       'all(at(result, i) == (spec.nasa.nasa9_HoRT(self._get_nasa(T[i]).a, T[i]) - spec.nasa.nasa9_SoR(self._get_nasa(T[i]).a, T[i])'
+                       ' if %r == "GoRT" else getattr(spec.nasa, "nasa9_%s")(self._get_nasa(T[i]).a, T[i])) for i in range(len(T)))' % (q, q)),
+                      ('segment-contains-T', 'all(self._get_nasa(T[i]).T_low <= T[i] and T[i] <= self._get_nasa(T[i]).T_high for i in range(len(T)))')])
+    contract(SHO + 'Shomate.get_' + q, P, label='array-is-map,large', shapes=dict(n=LADDER), native_only=True,
+             args=lambda n: dict(self=shomate('J/mol/K'), T=Tarr(n)), requires=[POS],
+             ensures=[('each-entry-is-the-scalar-value', 'all(at(result, i) == self.get_%s(T=T[i]) for i in range(len(T)))' % q)])
+for q in ('CpoR', 'HoRT', 'GoRT'):
+    contract(NASA + 'Nasa.get_' + q, P, label='adsorbate,array-is-map,large', shapes=dict(n=LADDER), native_only=True,
+             args=lambda n: dict(self=adsorbate('Nasa'), T=RealVec(n, 100., 3000.), x=Real(0., 1.)),
+             requires=ORDERED + ['all(T[i] > 0 for i in range(len(T)))', 'x >= 0'],
+             ensures=[('each-entry-is-the-scalar-value', 'all(at(result, i) == self.get_%s(T=T[i], x=x) for i in range(len(T)))' % q)])
+    contract(SHO + 'Shomate.get_' + q, P, label='adsorbate,array-is-map,large', shapes=dict(n=LADDER), native_only=True,
+             args=lambda n: dict(self=adsorbate('Shomate'), T=RealVec(n, 100., 3000.), x=Real(0., 1.)),
+             requires=['all(T[i] > 0 for i in range(len(T)))', 'x >= 0'],
+             ensures=[('each-entry-is-the-scalar-value', 'all(at(result, i) == self.get_%s(T=T[i], x=x) for i in range(len(T)))' % q)])
